@@ -11,7 +11,6 @@ use serde::{Deserialize, Serialize};
 /// `evt_kind`, a numeric key `n` and a boolean key `flag`. Each has its own value set (main.rs) in which
 /// "casts to the pulled type" is unambiguous from the documentation.
 pub const KEYS: [&str; 12] = ["a", "b", "c", "d", "e", "f", "", "é", "lvl", "evt_kind", "n", "flag"];
-pub const GENERAL_KEYS: u8 = 8;
 pub const KEY_LVL: u8 = 8;
 pub const KEY_KIND: u8 = 9;
 pub const KEY_N: u8 = 10;
@@ -30,7 +29,6 @@ pub const TEXTS: [&str; 6] = ["", "t", " and ", "é!", "x", "0"];
 pub const STRS: [&str; 13] = [
     "", "x", "y", "é", "1", "error", "warn", "info", "debug", "trace", "span", "metric", "spam",
 ];
-pub const GENERAL_STRS: u8 = 5;
 
 pub fn key(k: u8) -> &'static str {
     KEYS[k as usize % KEYS.len()]
